@@ -89,8 +89,9 @@ impl Scenario for C16 {
         let mut v = vec![];
         if m.advances < 1 {
             v.push(Act::Advance(20));
-            // ~64 days: longer than any TTL a contract extends to, shorter than the minimum persistent TTL
-            v.push(Act::Advance(1_100_000));
+            // ~405 days: longer than the maximum entry TTL, so every temporary entry is gone by then, while
+            // the world's keeper (World::set_seq) keeps instance / persistent entries alive
+            v.push(Act::Advance(7_000_000));
         }
         for key in 0..APPROVABLE {
             for app in 0..2u8 {
